@@ -184,6 +184,11 @@ func c07evlObjects(c *Ctx) []c07evlObj {
 	otherEv := mk(7, []byte{1, 2, 3}, "Else")
 	badVarEv := mk(eventlog.RIMLocationVariable, append(u[:], 'V', 0, 0xd8, 0xd8, 0, 0), "Google, Inc.") // lone surrogate in the name
 	padded := append(append([]byte{}, varEv...), make([]byte, 7)...)                                     // HOB padding
+	// empty locators of each type (a zero-length Uint32SizedArray leaves Data nil): whatever looks at the first
+	// byte of a locator without a length check meets them here
+	emptyRaw := mk(eventlog.RIMLocationRaw, nil, "Google, Inc.")
+	emptyVar := mk(eventlog.RIMLocationVariable, nil, "nobody")
+	emptyURI := mk(eventlog.RIMLocationURI, nil, "Else")
 	specID := append([]byte("Spec ID Event03\x00"), 0, 0, 0, 0, 0, 2, 0, 2, 3, 0, 0, 0, 4, 0, 20, 0, 11, 0, 32, 0, 12, 0, 48, 0, 0)
 	all := []uint16{4, 11, 12}
 	noAct := func(d []byte) c07evlEvent { return c07evlEvent{0, eventlog.EvNoAction, all, d} }
@@ -194,6 +199,7 @@ func c07evlObjects(c *Ctx) []c07evlObj {
 		c07evlLog("bad-variable-name", nil, []c07evlEvent{noAct(badVarEv), {0, eventlog.EvNoAction, []uint16{11}, nil}}),
 		c07evlLog("ev3-wrong-type", specID, []c07evlEvent{{0, 5, []uint16{4}, varEv}, {0, eventlog.EvNoAction, nil, nil}}),
 		c07evlLog("header-only", specID, nil),
+		c07evlLog("empty-locators", specID, []c07evlEvent{noAct(emptyURI), noAct(emptyVar), noAct(emptyRaw)}),
 	}
 	for _, e := range [][]byte{varEv, uriEv, rawEv, padded} {
 		objs = append(objs, c07evlObj{"event3", "event3", e[16:], c07evlEv3Pos(e, 16, len(e))})
